@@ -1,8 +1,69 @@
 """C09 — At most one event per replaceable address."""
+import os, shutil
 from ._store import run_store
+from ..common import hx, RUNDIR
+from ..gen import ev_tok, AUTHORS
+from ..storecheck import HistGen
+from ..conc import forced, STORE_POINTS
 
 THEOREMS = ['classify', 'one_per_address', 'store_older', 'frame', 'step_addrUniq']
 
 
+def races(c, runner):
+    """two versions of one address submitted by two threads: the store of one version is paused at each yield point of its
+    write transaction while the other version is offered. Whatever the replies, afterwards at most one event is retrievable
+    at the address (counted by id and by an author-only query, which does not stop at the first hit), it is the newer one
+    if both calls succeeded or the newer succeeded, and a version whose store was refused is not retrievable (oracle: the
+    property text)."""
+    rng = c.rng
+    Q = c.tier == 'quick'
+    base = os.path.join(RUNDIR, 'C09r-%d' % os.getpid())
+    os.makedirs(base, exist_ok=True)
+    try:
+        scen = []
+        for k in range(4 if Q else 40):
+            g = HistGen(rng, 'C09')
+            pk = rng.choice(AUTHORS)
+            kind = [10002, 30023, 0, 30023][k % 4]
+            tags = [[b'd', rng.choice([b'post', b'', b'v' * 183])]] if kind == 30023 else []
+            old = g.new_event(kind=kind, pk=pk, t=100, tags=tags, content=b'older')
+            new = g.new_event(kind=kind, pk=pk, t=200, tags=tags, content=b'newer')
+            pre = []
+            if k % 2:
+                # the address already holds a still older version
+                pre = ['STO ' + ev_tok(g.new_event(kind=kind, pk=pk, t=50, tags=tags, content=b'oldest'))]
+            after = ['HAS ' + hx(old['id']), 'HAS ' + hx(new['id']), 'FND _ %s _ _ - - - 1 0 0 m' % hx(pk)]
+            for p in STORE_POINTS:
+                for a, b, who in ((new, old, 'newer-paused'), (old, new, 'older-paused')):
+                    scen.append(dict(pre=pre, point=p, a='STO ' + ev_tok(a), b='STO ' + ev_tok(b), after=after, kind=kind, who=who,
+                                     old=old, new=new))
+        for s_, r in zip(scen, forced(c, base, scen)):
+            if 'error' in r or 'HUNG' in r.get('raw', '') or 'panic' in r.get('raw', ''):
+                c.violation('oracle', 'forced schedule did not complete: %s' % (r.get('error') or r['raw'])[:90], r['lines'])
+                continue
+            c.count('race:%d:%s:%s' % (s_['kind'], s_['who'], 'reached' if r['reached'] else 'not-reached'))
+            hold, hnew, fnd = r['after']
+            rold, rnew = (r['rb'], r['ra']) if s_['who'] == 'newer-paused' else (r['ra'], r['rb'])
+            t = fnd.split(' ')
+            found = [] if len(t) < 2 or t[1] == '_' else t[1].split(',')
+            at_addr = [x for x in found if x in (hx(s_['old']['id']), hx(s_['new']['id']))]
+            why = None
+            if hold == '1' and hnew == '1' or len(at_addr) > 1:
+                why = 'two events are retrievable at one address'
+            elif rnew.startswith('ok') and hnew != '1':
+                why = 'the newer version was stored successfully but is not retrievable'
+            elif rnew.startswith('ok') and hold == '1':
+                why = 'the older version is retrievable although the newer one was stored'
+            elif not rold.startswith('ok') and hold == '1':
+                why = 'the older version was refused (%s) but is retrievable' % rold[:10]
+            if why:
+                c.violation('oracle', 'two versions of one address stored concurrently (%s at %s; replies older=%s newer=%s): %s' % (
+                    s_['who'], s_['point'], rold[:10], rnew[:10], why), r['lines'])
+                continue
+            c.nontriv(('race', s_['kind'], s_['who'], s_['point']))
+    finally:
+        shutil.rmtree(base, ignore_errors=True)
+
+
 def run():
-    run_store('C09', THEOREMS, """Focus: stores at the same and at neighbouring addresses (kind +-1 across every class boundary, the three authors, the d set, events with two d tags, a d tag without value) in every timestamp order, resubmission, removal in between; oracle: reply class, retrievable set, and find_replaceable / find_parameterized return the single holder.""", {'reply', 'live', 'address'}, relevant={'STO', 'HAS', 'GID', 'FRP', 'FPR'})
+    run_store('C09', THEOREMS, """Focus: stores at the same and at neighbouring addresses (kind +-1 across every class boundary, the three authors, the d set, events with two d tags, a d tag without value) in every timestamp order, resubmission, removal in between; oracle: reply class, retrievable set, and find_replaceable / find_parameterized return the single holder. Plus forced two-thread schedules: two versions of one address, one store paused at every yield point of its write transaction while the other is offered; afterwards at most one of them is retrievable (by id and by an author-only query) and it is the newer one whenever that store succeeded.""", {'reply', 'live', 'address'}, relevant={'STO', 'HAS', 'GID', 'FRP', 'FPR'}, extra=races)
